@@ -380,6 +380,54 @@ def nested_require(ctx, U, hostile):
             return
 
 
+def nested_escape(ctx, U, hostile):
+    """The strings a PACKAGE passes to require() are judged like those of the main program: `../`, a leading `/` and `./` are refused
+    there too, and nothing outside the permitted directories is opened."""
+    from pico8 import tool
+    root = os.path.join(U, 'root')
+    main = os.path.join(root, 'main_nested_esc.lua')
+    out = os.path.join(root, 'out_nested_esc.p8')
+    inner = os.path.join(root, 'sub', 'nest_esc.lua')
+    for s_ in ('../../outside/x', '../x', '../../x', os.path.join(U, 'outside', 'x'), '../../rootbar/x', 'lnk2/../x'):
+        for depth in (1, 2):
+            with open(main, 'wb') as fh:
+                fh.write(b'require("sub/nest_esc")\n')
+            with open(inner, 'wb') as fh:
+                fh.write(b'require("nest_esc2")\n' if depth == 2 else b'q=require("' + s_.encode() + b'")\n')
+            inner2 = os.path.join(root, 'sub', 'nest_esc2.lua')
+            if depth == 2:
+                with open(inner2, 'wb') as fh:
+                    fh.write(b'return require("' + s_.encode() + b'")\n')
+            case = {'kind': 'nested_escape', 'string': s_, 'depth': depth, 'hostile': hostile}
+            ctx.case(('nested-escape', s_, depth, hostile), nontrivial=True)
+            err = rcode = None
+            try:
+                with fsmon.Watch(U, [root], hostile) as w:
+                    try:
+                        rcode = tool.main([ambient.vflag(), 'build', out, '--lua', main])
+                    except BaseException as e:
+                        err = e
+            finally:
+                for f in (main, out, inner, inner2):
+                    if os.path.exists(f):
+                        os.remove(f)
+            ctx.monitor('require_builds')
+            if not any(p_ == fsmon._norm(inner) for p_, m in w.events):
+                ctx.inconclusive_because('audit hook did not see the legitimate open of the nested package file')
+                return
+            ctx.monitor('legitimate_opens_seen')
+            ctx.feature('escaping_string_inside_a_package')
+            if err is None and not rcode:
+                ctx.violation('require("%s") inside a package (%d levels below the main program, %s fs) was accepted: the build succeeded' % (
+                    s_, depth, 'hostile' if hostile else 'real'), case)
+                return
+            outp = w.outside()
+            if outp:
+                ctx.violation('require("%s") inside a package (%d levels below the main program, %s fs) opened %s, outside root' % (
+                    s_, depth, 'hostile' if hostile else 'real', sorted({os.path.relpath(p_, U) for p_, m in outp})), case)
+                return
+
+
 def scenario_requires(ctx, U, hostile):
     """Small project layouts in which WHICH file is the requiring file matters: (a) a load path with a pattern relative to the requiring
     file's parent (`../?.lua`: the user named that directory) - after a package found there has been loaded, the main file's next
@@ -630,6 +678,7 @@ def run_shard(spec, ctx):
                 # (e) a package in a sub-directory requires a module that only the MAIN file's directory has: the permitted
                 # directories of a nested require() are those of the requiring file
                 nested_require(ctx, U, hostile)
+                nested_escape(ctx, U, hostile)
                 scenario_requires(ctx, U, hostile)
                 carts_folder_lookup(ctx, U, hostile)
             ctx.feature('links_done')
@@ -730,7 +779,9 @@ def run_shard(spec, ctx):
 def replay(case, ctx):
     U = make_universe()
     try:
-        if case['kind'] == 'carts_folder_lookup':
+        if case['kind'] == 'nested_escape':
+            nested_escape(ctx, U, case['hostile'])
+        elif case['kind'] == 'carts_folder_lookup':
             carts_folder_lookup(ctx, U, case['hostile'])
         elif case['kind'] == 'scenario':
             scenario_requires(ctx, U, case['hostile'])
@@ -754,7 +805,7 @@ def gates(m, tier):
     N = 3 if tier == 'quick' else 4
     if f.get('strings_enumerated', 0) != len(strings(N)):
         missed.append('strings enumerated %d of %d' % (f.get('strings_enumerated', 0), len(strings(N))))
-    for k in ('cart_loaded_from_stream_without_name', 'cart_under_cwd_relative_carts_folder', 'strings_with_tilde', 'nested_require_from_subdirectory', 'main_named_bare', 'main_named_relative', 'cart_named_bare', 'cart_named_relative', 'links_done', 'strings_through_directory_links', 'strings_with_backslash_separators', 'strings_with_undecodable_bytes', 'sequences_done', 'failed_load_before_case', 'failed_build_before_case', 'include_cfg:subdir', 'absolute_paths_done', 'names_done', 'cart_directories_with_special_characters', 'carts_folder_lookalikes', 'main_file_inside_carts_folder_project', 'strings_with_backslash_digit_values', 'strings_with_blanks_around_a_path', 'output_cart_in_another_directory', 'file_only_in_lower_case_twin_directory', 'require_scenario:ancestor_pattern', 'require_scenario:ancestor_pattern_two', 'require_scenario:package_outside_project', 'require_scenario:entry_without_pattern', 'require_scenario:program_assigns_package_path', 'require_scenario:program_extends_package_path', 'require_scenario:dot_slash_entry', 'require_scenario:package_is_a_cart_with_include', 'cart_of_the_carts_folder_named_bare_from_elsewhere', 'hostile', 'real_fs', 'include_cfg:plain', 'include_cfg:carts', 'include_cfg:carts2', 'include_rejected',
+    for k in ('cart_loaded_from_stream_without_name', 'cart_under_cwd_relative_carts_folder', 'strings_with_tilde', 'nested_require_from_subdirectory', 'main_named_bare', 'main_named_relative', 'cart_named_bare', 'cart_named_relative', 'links_done', 'strings_through_directory_links', 'strings_with_backslash_separators', 'strings_with_undecodable_bytes', 'sequences_done', 'failed_load_before_case', 'failed_build_before_case', 'include_cfg:subdir', 'absolute_paths_done', 'names_done', 'cart_directories_with_special_characters', 'carts_folder_lookalikes', 'main_file_inside_carts_folder_project', 'strings_with_backslash_digit_values', 'strings_with_blanks_around_a_path', 'output_cart_in_another_directory', 'file_only_in_lower_case_twin_directory', 'require_scenario:ancestor_pattern', 'require_scenario:ancestor_pattern_two', 'require_scenario:package_outside_project', 'require_scenario:entry_without_pattern', 'require_scenario:program_assigns_package_path', 'require_scenario:program_extends_package_path', 'require_scenario:dot_slash_entry', 'require_scenario:package_is_a_cart_with_include', 'cart_of_the_carts_folder_named_bare_from_elsewhere', 'escaping_string_inside_a_package', 'hostile', 'real_fs', 'include_cfg:plain', 'include_cfg:carts', 'include_cfg:carts2', 'include_rejected',
               'include_loaded', 'require_rejected', 'require_built') + tuple('load_path:' + l for l in LOAD_PATHS):
         if f.get(k, 0) < 1:
             missed.append('%s never seen' % k)
